@@ -1,6 +1,184 @@
 """Python-AST -> Lean translation of the container bookkeeping (properties C06, C07, C20).
 
-DOCSTRING_PLACEHOLDER
+Regenerates `lean/MetadorModel/Gen/TocFns.lean` from the current source of `envshim.REPO`
+(honours METADOR_REPO) on every `./check C06|C07|C20` (one generator for the three properties:
+they share `Model/Container.lean`; it is called through `harness/props/ctr_common.translate`).
+The bridge modules `lean/MetadorModel/Bridge/TocFns{Paths,Pkg,Schemas,Links,Meta,Wrap}.lean`
+(re-checked by `lake build` on every run) prove the generated definitions equal to the functions
+of the hand-written model, so that the theorems of `Props/C06.lean`, `Props/C07.lean`,
+`Props/C20.lean` (which are about the model) are theorems about what the source says now.
+
+How the translation works
+-------------------------
+* A Python method becomes a Lean definition in the model's state-and-exception monad `M` over the
+  model's state `St` (raw tree + caches of TOCLinks / TOCSchemas / TOCPackages + uuid counter):
+  every statement becomes one statement of a `do` block, in the same order. `if/elif/else` becomes
+  `if … then … else`, a test `x is None` / `not x` / `if obj := …` on an Optional becomes a `match`
+  that narrows `x`, `for` becomes `forEachM` (or `pyFoldM` when the body re-binds one local /
+  `self`), a `visititems` callback that appends to a local list becomes the step function of a
+  `pyFoldM`, a generator (`yield`) returns the list of what it yields, `return` / `continue` end
+  the block (statements after an `if` that contains one are moved into the branches that fall
+  through), `raise E(..)` becomes `raise <error class>` (the message text is dropped),
+  `assert c` becomes `pyAssert c`. Expressions that can raise (`d[k]`, `raw[p]`, `x.attr` on an
+  Optional, …) are bound by `let tmpN ← …` in Python's evaluation order; `and` / `or` / `a if c
+  else b` whose later operands have effects become monadic conditionals (short circuit kept).
+  Reads of `self._<cache>` go through a snapshot `let s ← getSt` that is renewed after every
+  statement with an effect; a local that aliases an entry of a cache dict (`p = self._used[k]`)
+  carries the value, and its mutation (`p.remove(x)`) is written back to the entry — the
+  translator refuses (TranslateError) to use such an alias after the dict may have been changed
+  by something else.
+* Every *effectful* method a method calls (same class or another object) is a PARAMETER of the
+  generated definition (`def TOCLinks.register (TOCSchemas___register : SRef → M Unit) (obj :
+  Stored) : M Unit`); pure helpers (`_ep_name_for`, `_schema_ref_for`, `*_path_for`,
+  `StoredMetadata.to_path`, `MetadorMeta._get_raw`) are called directly. The bridge theorem of a
+  method instantiates the parameters with the MODEL's functions (`gen_link_register :
+  TOCLinks.register (schemaRegister e) st = linkRegister e st.schema st.uuid st.path`). So each
+  theorem ties the text of ONE method to the model, and the theorems chain along the call graph;
+  where the callee's bridge is an unconditional equation the closed statement follows by rewriting
+  (e.g. `gen_pkg_register_closed`). `self` of a `MetadorMeta` method is the model's `Handle`
+  (`_base_dir`, `_objs`); a method that updates `self._objs` returns the new handle.
+* Anything outside the shapes below raises `TranslateError` naming the construct (obligation
+  `translate:<ID>` undischarged, never a crash); the function concerned is emitted as
+  `untranslated` (a definition of the right type that is wrong on purpose), so exactly its bridge
+  module stops building.
+
+What is translated (line numbers of the pinned tree) -> bridge theorem(s), all in namespace
+`MetadorModel.Bridge.TocFns`
+--------------------------------------------------------------------------------------------
+src/metador_core/container/interface.py
+  _schema_ref_for 110-112, _ep_name_for 115-116, StoredMetadata.to_path 89-96,
+  TOCLinks._link_path_for 431-432, TOCSchemas._schema_path_for 593-594,
+  TOCSchemas._jsonschema_path_for 597-598, TOCPackages._pkginfo_path_for 822-823
+                                -> gen_schema_ref_for, gen_ep_name_for, gen_to_path, gen_link_path_for,
+                                   gen_schema_path_for, gen_jsonschema_path_for, gen_pkginfo_path_for
+  TOCPackages._add_providers 825-830        -> gen_add_providers            (= addProviders, by induction)
+  TOCPackages._register 832-836             -> gen_pkg_register(_closed)    (= pkgRegister)
+  TOCPackages._unregister 838-851           -> gen_pkg_unregister           (Agree with pkgUnregister, under PClosed)
+  TOCPackages.__init__ 853-870              -> gen_pkg_init                 (= loadPackages, under PkgTreeOK)
+  TOCSchemas._update_parents_children 604-625 -> gen_upc_add (= upcAdd), gen_upc_remove (Agree with upcRemove)
+  TOCSchemas._register 627-661              -> gen_schema_register          (= schemaRegister, unconditional)
+  TOCSchemas._unregister 663-685            -> gen_schema_unregister        (= schemaUnregister, under PClosed)
+  TOCSchemas.__init__ 687-723               -> gen_schemas_init             (= loadSchemas, under SchemaInitOK)
+  TOCSchemas.parent_path 738-744, versions 746-761, children 763-774
+                                -> gen_parent_path, gen_versions (= tocVersions), gen_children (same members as
+                                   tocChildren / tocChildrenByName; the source returns a set)
+  TOCLinks.__init__ 434-452                 -> gen_links_init               (= loadLinks, under LinkTreeOK)
+  TOCLinks.resolve 466-470, update 472-476, register 478-487, unregister 489-517
+                                -> gen_link_resolve, gen_link_update, gen_link_register, gen_link_unregister
+                                   (= linkResolve / linkUpdate / linkRegister / linkUnregister, unconditional)
+  TOCLinks.find_missing 538-562             -> gen_find_missing             (= findMissing, for an existing group)
+  TOCLinks.repair_missing 564-583           -> gen_repair_missing           (= repairMissing, unconditional)
+  MetadorMeta._require_schema 125-140, _get_raw 164-178, _set_raw 180-193, _del_raw 195-208,
+  _destroy 212-216, __setitem__ 378-403, __delitem__ 405-419
+                                -> gen_require_schema, gen_get_raw, gen_set_raw, gen_del_raw (the stored object is
+                                   filed under its own schema name), gen_destroy, gen_setitem, gen_delitem
+                                   (= Env.requireSchema, Handle.getRaw/setRaw/delRaw/destroy/set/del)
+  MetadorMeta.__init__ 220-242              -> gen_meta_init                (= openHandle, under MetaDirOK)
+  MetadorMeta.query 279-313, __contains__ 315-327, get 355-376
+                                -> gen_query (same first element and same members as Handle.query, for a non-empty
+                                   schema name and distinct keys of `_objs`), gen_contains (= Handle.contains),
+                                   gen_get (= Handle.get when the first candidate can be read)
+  MetadorContainerTOC.query 964-998         -> gen_toc_query                (= tocQuery, for an existing start node)
+src/metador_core/container/wrappers.py   (translated for the container root: `self = mc`, names are absolute
+                                          paths, source / destination of `copy` given as paths)
+  MetadorNode._guard_path 171-177           -> gen_guard_path               (= guardPath)
+  MetadorNode._destroy_meta 197-199         -> gen_node_destroy_meta        (= openHandle(..).destroy)
+  MetadorGroup._destroy_meta 337-341        -> gen_group_destroy_meta       (this node, then every non-reserved child
+                                                with the same `_unlink`; the recursion is a parameter)
+  MetadorGroup.__delitem__ 421-429          -> gen_group_delitem            (= opDelete)
+  MetadorGroup.move 431-457                 -> gen_group_move               (= opMove; hypothesis: the metadata
+                                                directory of a moved dataset is a group — the source asserts it)
+  MetadorGroup.copy 459-538                 -> gen_group_copy               (= opCopy; hypotheses: a raw copy keeps the
+                                                node kind, the copied metadata directory is a group)
+
+Conditional bridges. `Agree g m` (Bridge/TocFnsBase.lean): same outcome, same raw tree, same uuid
+counter in every case, and the same state whenever the model does not raise. It is used where a loop
+over a cache raises half-way (`KeyError` in the loops of `TOCPackages._unregister` and of
+`_update_parents_children(ref, None)`): Python has then updated the entries visited so far, the
+model's loops are pure functions whose partial result is dropped (unreachable under `Inv`).
+`PClosed` (every node has its parent group; part of `Inv`) is needed where the source says
+`raw.require_group(P)` for a `P` that exists because a child of it was just deleted. The load loops
+need the shape of the `/metador_container` subtree (`PkgTreeOK`, `SchemaInitOK`, `LinkTreeOK`,
+`MetaDirOK`: what `Inv`'s `TocRaw` / `MetaOK` say about it), because the source parses node names
+and payloads and raises on anything else, where the model's loaders skip it.
+
+Value dictionary (fixed; Lean side: `lean/MetadorModel/Py/CtrPy.lean`, same table with definitions)
+--------------------------------------------------------------------------------------------------
+    `self._raw`, `self._mc.__wrapped__`, `self.__wrapped__`        the raw tree `s.raw` of the state
+    `self._pkginfos / _providers`                                  `s.c.pkginfos / providers` (`_pkginfos` keeps the
+                                                                   schema plugins of the package info only)
+    `self._schemas / _parents / _children / _used`, `_toc_path`    `s.c.schemas / parents / children / used / tocPath`
+    `self._pkgs`, `self._toc_schemas`, `self._mc.metador._links`,
+    `….metador.schemas`, `self._self_container`                    the same state (objects are wired by identity;
+                                                                   `self._raw = raw_cont` etc. in `__init__` is skipped)
+    `self._base_dir`, `self._objs` (MetadorMeta)                   `self_.baseDir`, `self_.objs` (Handle)
+    dict `d[k]` / `d[k] = v` / `del d[k]` / `k in d` / `d.get(k[,x])`   dictGetItem (KeyError) / alSet / requireKey +
+    / `d.pop(k)` / `d.keys()` / iteration                          alErase / (alGet d k).isSome / alGet(.getD) / … /
+                                                                   map fst, in insertion order
+    set `s.add(x)` / `s.discard(x)` / `s.remove(x)` / `x in s`     setAdd / setRemove / pySetRemove (KeyError) / ∈ ;
+    `set().union(*ls)`, `{f(x) for x in l}`, `a.intersection(b)`   pyUnion, pySetOf, filter (∈ b): list-sets in
+                                                                   insertion order (iteration order of a Python set is
+                                                                   not modelled)
+    `not x` / `if x` on dict, set, list, str, int, Optional object  isEmpty, != "", != 0, isSome (as Python)
+    `raw[p]` / `raw[p] = v` / `del raw[p]` / `p in raw` / `raw.get(p)`  rawGetItem (KeyError) / rawSetItem (rawCreate) /
+    / `raw.move(a,b)` / `raw.copy(a,b,…)` / `raw.require_group(p)`     rawDelItem (rawDel) / has / rawGet / rawMoveM /
+                                                                   rawCopyM / rawRequireGroup (creates when missing)
+    a node handle, `node.name`, `node.parent`                      its path, the path, `dropLast` (a group)
+    `g.keys() / values() / items()`, `len(g)`, `g.visititems(f)`   groupKeys / groupValues / groupItems / groupLen /
+                                                                   visitNodes (raw) resp. userVisit, userChildren
+                                                                   (MetadorGroup: reserved names skipped)
+    `isinstance(n, H5GroupLike | H5DatasetLike | MetadorDataset)`  isGroup / isDataset (statically true for `.parent`)
+    `node[()]`, `.decode("utf-8")` of a link, `json.loads(..)` +
+    `map(PluginRef.parse_obj, ·)`, `PluginPkgMeta.parse_raw(..)`   dsRead, Val.decodePath, Val.jsonRefs, Val.pkgMeta
+    `bytes(info)`, `schema_cls.schema_json().encode(..)`,
+    `json.dumps(list(map(lambda x: x.dict(), ps))).encode(..)`,
+    `bytes(obj)`, `str(node.name)`                                 Val.pkginfo / Val.jsonschema / Val.compat / Val.data /
+                                                                   Val.target
+    f-strings `f"{P}/{to_ep_name(n,v)}"`, `f"{P}/{uuid}"`,
+    `f"{P}/{ep}={uuid}"`, `f"{P}/jsonschema.json"`, `…/compat`     joinEp (a package below packages/, else a schema),
+                                                                   joinUuid, joinObj, joinKey
+    `M.METADOR_*_PATH` (evaluated from utils.py)                   tocP, linksP, schemasP, packagesP, versionP, uuidP
+    `M.is_internal_path(p[, META_PREF])`, `M.is_meta_base_path`,
+    `M.to_meta_base_path`                                          isInternal / inMeta, isMetaBase, metaBase (string
+                                                                   level: property C08's translation)
+    `to_ep_name(n, v)`, `from_ep_name(EPName(x))`, `UUID(x)`,
+    `x.name.split("/")[-1]`, `StoredMetadata.from_node(n)`         the pair; Key.pkgName / Key.epName / Key.uuidOf /
+                                                                   lastEpName / storedFromNode (string parsing of a
+                                                                   node name: fails on a key of another constructor)
+    `schemas.PluginRef(name=, version=)`, `ref.supports(r)`        SRef.mk, supports (C16's translation)
+    `schemas.get / _get_unsafe / parent_path / provider`           envGet / envGetUnsafe / envParentPath / envProvider
+                                                                   (the plugin environment `e : Env`)
+    `plugin_args(schema, version)` on a (name, version) tuple      pluginArgs
+    `self._parse_obj(cls, value)`                                  parseValue (pydantic accepts the value or not) /
+                                                                   parseStored (class parsed with, bytes)
+    `self._node._guard_acl(..)`, `self._guard_acl(..)`, `acl[..]`  no-op / false (access flags are property C15's)
+    `self[name]`, `_wrap_method("__delitem__")(self, name)`        guard the path + rawGetItem / + rawDelItem
+    `node.meta`                                                    a call of `MetadorMeta.__init__` (callee parameter)
+    `kwargs.pop("without_meta", False)`; other keys, `if kwargs:`  the parameter; the default; false
+    KeyError / ValueError / TypeError / AssertionError+AttributeError / pydantic ValidationError
+                                                                   Err.key / value / type / other / validation
+    `cast(T, x)`, `str(uuid)`, `list(x)`, `set(x)` (copy), `iter`  x
+
+NOT translated (tied by the correspondence run only)
+----------------------------------------------------
+`TOCLinks.fresh_uuid` (uuid1 + while loop; the model's counter; NOTE: the source also reserves
+`_toc_path[uuid] = None`, which the model does not record), `TOCLinks.find_broken` (no model function),
+`TOCSchemas.provider/__getitem__/get/keys/…`, `MetadorMeta._parse_obj` (pydantic), `keys/values/items/
+__getitem__`, `MetadorContainerTOC.__init__` (version check; the three constructor calls are bridged one by
+one), the `meta` property itself (a fresh `MetadorMeta` per access), `_wrap_method`, `visititems/items` of
+MetadorGroup (dictionary: `userVisit`, `userChildren`), relative names and node objects as `copy` source /
+destination, `create_group / __setitem__` (plain `_wrap_method`), all access-flag logic, the flattening of the
+`_destroy_meta` recursion into the model's up-front listing `userNodesFrom` (only its one-level shape is
+bridged), the state of a `MetadorMeta` object after a method raised.
+
+Behaviour-preserving edits (mutation-tested both ways, see the report): renamed locals / loop variables,
+comments and docstrings, reordered independent statements, `a if c else b` <-> if statement, `elif` <-> `else:
+if`, merged / split boolean conditions keep the tie green. Known to break it although harmless: a comparison
+the dictionary does not have (`len(g) > 0` for `len(g)`), `d.get(k)` for `d.get(k, [])` in a truth test
+(Optional set), in general any rewrite through a construct outside the table above (TranslateError), and a
+rewrite that changes the ORDER of effects on the state even if no observer can tell.
+Concurrency: `Gen/TocFns.lean` is shared by C06, C07 and C20 — never run checks of these properties against two
+different METADOR_REPO values at the same time.
 """
 import ast
 import os
@@ -28,9 +206,9 @@ LEAN_TY = {
     "str": "String", "ver": "Ver", "bool": "Bool", "unit": "Unit", "nat": "Nat", "key": "Key", "val": "Val",
     "stored": "Stored", "pkgmeta": "PkgMeta", "plugins_c": "List SRef", "sinfo": "SInfo", "epname": "EpName",
     "handle": "Handle", "skey": "String × Option Ver", "value": "Bool × String", "tok": "String",
-    "parsed": "SRef × String",
+    "parsed": "SRef × String", "wnode": "Path", "lastseg": "Option Key",
 }
-PATHLIKE = ("path", "node", "group", "dataset")
+PATHLIKE = ("path", "node", "group", "dataset", "wnode")
 
 
 def lty(t):
@@ -139,6 +317,12 @@ FIELDS = {
         "_packages": ("obj", "TOCPackages"),
     },
     "StoredMetadata": {},
+    # the wrapper methods are translated for the container root (self = `mc`): names are absolute paths
+    "MetadorGroup": {
+        "__wrapped__": ("raw",),
+        "_self_container": ("obj", "MetadorContainer"),
+    },
+    "MetadorNode": {},
 }
 
 # constants of container/utils.py (evaluated from the source) -> the model's path / predicate
@@ -190,6 +374,7 @@ class Spec:
         if self.selfty and not self.ctor:
             ps.append(lty(self.selfty))
         ps += [lty(p) for p in self.params if p is not None]
+        ps += [lty(t) for t in (getattr(self, "kwargs", None) or {}).values()]
         r = lty(self.selfty) if self.mutself else lty(self.ret)
         if self.kind != "pure":
             r = "M (%s)" % r
@@ -262,8 +447,29 @@ spec(IFACE, "MetadorMeta", "__setitem__", "M", ["skey", "value"], "unit", selfty
      callees=["MetadorMeta._require_schema", "MetadorMeta._set_raw"])
 spec(IFACE, "MetadorMeta", "__delitem__", "M", ["skey"], "unit", selfty="handle", mutself=True,
      callees=["MetadorMeta._del_raw"])
+# ------------------------------------------------------------------ MetadorContainerTOC.query, wrappers (self = container root)
+spec(WRAP, "MetadorNode", "_guard_path", "M", ["path"], "unit")
+spec(WRAP, "MetadorNode", "_destroy_meta", "M", ["bool"], "unit", selfty="wnode",
+     callees=["MetadorMeta.__init__", "MetadorMeta._destroy"])
+# a method call on a child node dispatches on its class (MetadorGroup / MetadorDataset): one callee parameter
+_v = Spec(WRAP, "MetadorNode", "_destroy_meta", "M", ["bool"], "unit", selfty="wnode")
+_v.qual = "wnode._destroy_meta"
+SPECS[_v.qual] = _v
+spec(WRAP, "MetadorGroup", "_destroy_meta", "M", ["bool"], "unit", selfty="wnode",
+     callees=["MetadorNode._destroy_meta", "wnode._destroy_meta"])
+spec(WRAP, "MetadorGroup", "__delitem__", "M", ["path"], "unit",
+     callees=["MetadorNode._guard_path", "wnode._destroy_meta"])
+spec(WRAP, "MetadorGroup", "move", "M", ["path", "path"], "unit",
+     callees=["MetadorNode._guard_path", "MetadorMeta.__init__", "TOCLinks.find_missing", "TOCLinks.repair_missing"])
+spec(WRAP, "MetadorGroup", "copy", "M", ["path", "path"], "unit",
+     callees=["MetadorNode._guard_path", "MetadorMeta.__init__", "wnode._destroy_meta", "TOCLinks.find_missing",
+              "TOCLinks.repair_missing"], hints={"src_name": "lastseg"})
+SPECS["MetadorGroup.copy"].kwargs = {"without_meta": "bool"}
+spec(IFACE, "MetadorContainerTOC", "query", "M", ["skey", ("opt", "ver"), ("opt", "wnode")], ("list", "wnode"),
+     callees=["MetadorMeta.__init__", "MetadorMeta.__contains__"], hints={"ret": ("list", "wnode")})
 for _q in ("TOCLinks.resolve", "TOCSchemas.children", "TOCSchemas.versions", "TOCSchemas.parent_path", "MetadorMeta.query",
-           "MetadorMeta._require_schema", "MetadorMeta.get", "MetadorMeta.__contains__"):
+           "MetadorMeta._require_schema", "MetadorMeta.get", "MetadorMeta.__contains__", "MetadorMeta.__init__",
+           "MetadorNode._guard_path"):
     SPECS[_q].ro = True
 
 
@@ -475,7 +681,13 @@ class Fn:
         self.ntmp = 0
         self.cls = sp.cls
         a = self.fdef.args
-        if a.vararg or a.posonlyargs or a.kwarg:
+        self.kwname = None
+        self.kwspec = getattr(sp, "kwargs", None)
+        if a.kwarg and self.kwspec is not None:
+            self.kwname = a.kwarg.arg
+        elif a.kwarg:
+            raise TranslateError("%s: unsupported parameter kinds" % sp.qual)
+        if a.vararg or a.posonlyargs:
             raise TranslateError("%s: unsupported parameter kinds" % sp.qual)
         names = [x.arg for x in a.args] + [x.arg for x in a.kwonlyargs]
         self.selfname = None
@@ -495,8 +707,11 @@ class Fn:
             if t is not None:
                 self.env0[n] = Var(lname(n), t)
         self.wiring = set(n for n, t in zip(names, sp.params) if t is None)  # constructor parameters (other objects)
-        if sp.selfty == "stored" and self.selfname:
-            self.env0[self.selfname] = Var("self_", "stored")
+        if sp.selfty in ("stored", "wnode") and self.selfname:
+            self.env0[self.selfname] = Var("self_", sp.selfty)
+        if self.kwname:
+            for k, t in self.kwspec.items():
+                self.env0["kw:" + k] = Var(lname(k), t)
         self.is_gen = contains_yield(self.fdef)
 
     def fresh(self):
@@ -520,6 +735,8 @@ class Fn:
         for n, t in zip(self.pnames, sp.params):
             if t is not None:
                 ps.append("(%s : %s)" % (lname(n), lty(t)))
+        for k, t in (self.kwspec or {}).items():
+            ps.append("(%s : %s)" % (lname(k), lty(t)))
         r = lty(sp.selfty) if sp.mutself else lty(sp.ret)
         if sp.kind != "pure":
             r = "M (%s)" % r
@@ -580,6 +797,12 @@ class Fn:
             if is_docstring(st) or isinstance(st, ast.Pass):
                 continue
             if isinstance(st, ast.If):
+                stat = self.static_test(b, st.test)
+                if stat is not None:
+                    # decided by the parameter types: only the live branch is translated
+                    live = st.body if stat else st.orelse
+                    self.block(b, list(live) + ([] if terminates(live) else list(rest)), lvl)
+                    return
                 if contains_jump(st):
                     self.if_cps(b, st, rest, lvl)
                     return
@@ -600,6 +823,35 @@ class Fn:
                 return
             self.simple(b, st, rest, lvl)
         lvl.fall(b)
+
+    def static_test(self, b, test):
+        """True / False when the test is decided by the static types (isinstance of a typed name; the keyword dict
+        after all its keys have been popped), else None"""
+        if isinstance(test, ast.Name) and test.id == self.kwname:
+            return False
+        if isinstance(test, ast.Call) and isinstance(test.func, ast.Name) and test.func.id == "isinstance" and len(test.args) == 2 \
+                and isinstance(test.args[0], ast.Name) and isinstance(test.args[1], ast.Name):
+            v = b.env.get(test.args[0].id)
+            tn = test.args[1].id
+            if v is None:
+                return None
+            if v.ty == "path":
+                return {"str": True, "MetadorNode": False, "MetadorGroup": False, "MetadorDataset": False}.get(tn)
+            if v.ty == "wnode":
+                return {"str": False, "MetadorNode": True}.get(tn)
+            return None
+        if not any(isinstance(n, (ast.NamedExpr, ast.Yield)) for n in ast.walk(test)):
+            probe = b.sub(pure=True)
+            ntmp = self.ntmp
+            try:
+                x = self.truthy(self.ex(probe, test, want="bool"), test)
+                if not probe.lines and x.lean in ("true", "false"):
+                    return x.lean == "true"
+            except TranslateError:
+                pass
+            finally:
+                self.ntmp = ntmp
+        return None
 
     def do_raise(self, b, st):
         exc = st.exc
@@ -682,13 +934,16 @@ class Fn:
     def if_plain(self, b, st, rest, lvl):
         kind, head, nm, subs = self.branches(b, st)
         # what the branches re-bind and what is needed afterwards
-        asg = [n for n in assigned_names(st.body + st.orelse)]
+        asg = [n for n in assigned_names(st.body + st.orelse) if n != "msg"]
         later = used_names(rest) | {"acc__", self.selfname or "self"} | lvl.needs
         live = []
+        both = set(assigned_names(st.body)) & set(assigned_names(st.orelse))
         for n in asg:
             key = "self_" if n == self.selfname else n
             if n == self.selfname and not self.sp.mutself:
                 continue
+            if n != self.selfname and n not in b.env and n not in both:
+                continue  # local to one branch (a later use must bind it again)
             if n in later or key == "self_":
                 live.append(n)
         if self.is_gen and contains_yield(st):
@@ -750,7 +1005,7 @@ class Fn:
 
 def always_truthy(t):
     """python objects of this type are never falsy (dataclass / pydantic instances, node handles, non-empty tuples)"""
-    return t in ("stored", "sref", "ver", "pkg", "sinfo", "pkgmeta", "node", "group", "dataset", "uuid", "handle")
+    return t in ("stored", "sref", "ver", "pkg", "sinfo", "pkgmeta", "node", "group", "dataset", "uuid", "handle", "wnode")
 
 
 def paren(s):
@@ -786,11 +1041,15 @@ class Fn2(Fn):
         """classify an lvalue-ish expression:
         ("raw",) | ("field", name, ty) | ("hfield", name, ty) | ("obj", cls) | ("local", pyname, Var) | None"""
         if isinstance(e, ast.Name):
+            if e.id == self.selfname and self.sp.selfty in ("stored", "wnode"):
+                return ("local", e.id, b.env[e.id])
             if e.id == self.selfname:
                 return ("obj", self.cls)
             if e.id == "cls" and self.is_classmethod:
                 return ("obj", self.cls)
             v = b.env.get(e.id)
+            if v is not None and isinstance(v.ty, tuple) and v.ty[0] == "placeref":
+                return v.ty[1]
             if v is not None:
                 return ("local", e.id, v)
             return None
@@ -813,6 +1072,9 @@ class Fn2(Fn):
 
     def set_local(self, b, name, x, node=None):
         ln = lname(name)
+        if x.lean is None:
+            b.env[name] = Var(None, x.ty)  # not a value of the model (e.g. a dict of fixed keyword arguments)
+            return
         if isinstance(x.ty, tuple) and None in x.ty:
             b.env[name] = Var(x.lean, x.ty)  # `x: Optional[T] = None` that is assigned again before use
             return
@@ -931,6 +1193,11 @@ class Fn2(Fn):
         if isinstance(t, ast.Name) and t.id == "msg":
             b.env["msg"] = Var('""', "msg")
             return
+        if isinstance(t, ast.Name) and isinstance(value, (ast.Attribute, ast.Name)):
+            plv = self.place(b, value)
+            if plv and plv[0] in ("raw", "obj"):
+                b.env[t.id] = Var(None, ("placeref", plv))  # a local name for another object
+                return
         if isinstance(t, ast.Name):
             want = self.sp.hints.get(t.id) or (self.ann_type(ann) if ann is not None else None)
             x = self.ex(b, value, want=want)
@@ -1208,6 +1475,7 @@ class Fn2(Fn):
 
 
 OBJ_PROPS = {}
+BASES = {"MetadorGroup": "MetadorNode", "MetadorContainer": "MetadorGroup"}
 
 
 class Fn3(Fn2):
@@ -1280,6 +1548,8 @@ class Fn3(Fn2):
             return E(None, ("mod", e.id))
         if e.id in ("PluginPkgMeta", "StoredMetadata", "PluginRef"):
             return E(None, ("cls", e.id))
+        if e.id == self.selfname:
+            raise self.err("an attribute / use of self that is not in the dictionary", e)
         raise self.err("name '%s' is not bound" % e.id, e)
 
     def ex_Tuple(self, b, e, want):
@@ -1378,8 +1648,8 @@ class Fn3(Fn2):
             x = self.ex(b, e.value.func.value)
             if x.ty in PATHLIKE and want == "epname":
                 return E(b.bind("lastEpName %s" % paren(x.lean)), "epname")
-            if x.ty in PATHLIKE and want == "key":
-                return E(b.bind("optValue (%s).getLast?" % x.lean), "key")
+            if x.ty in PATHLIKE and want == "lastseg":
+                return E("(%s).getLast?" % x.lean, "lastseg")  # "" for the root
             raise self.err("last path segment: expected type unknown (add a hint)", e)
         x = self.ex(b, e.value)
         if isinstance(sl, ast.Constant) and sl.value in SEG_CONSTS and x.ty in PATHLIKE:
@@ -1417,6 +1687,8 @@ class Fn3(Fn2):
     def ex_UnaryOp(self, b, e, want):
         if isinstance(e.op, ast.Not):
             x = self.truthy(self.ex(b, e.operand, want="bool"), e.operand)
+            if x.lean in ("true", "false"):
+                return E("false" if x.lean == "true" else "true", "bool")
             if x.lean.startswith("!") and _balanced(x.lean[1:]):
                 return E(x.lean[1:], "bool")
             return E("!%s" % paren(x.lean), "bool")
@@ -1926,6 +2198,8 @@ class Fn4(Fn3):
         # methods of objects of the source
         if pl and pl[0] == "obj":
             qual = "%s.%s" % (pl[1], attr)
+            if qual not in SPECS and pl[1] in BASES and "%s.%s" % (BASES[pl[1]], attr) in SPECS:
+                qual = "%s.%s" % (BASES[pl[1]], attr)  # inherited method
             if qual in SPECS:
                 recv = "self_" if SPECS[qual].selfty and isinstance(f.value, ast.Name) and f.value.id == self.selfname else None
                 return self.call_source_fn(b, e, qual, recv=recv)
@@ -1964,6 +2238,8 @@ class Fn4(Fn3):
         if t == ("cls", "StoredMetadata") and attr == "from_node" and len(a) == 1:
             v = self.coerce(b, self.ex(b, a[0]), "path", e)
             return E(b.bind("storedFromNode %s" % paren(v.lean)), "stored")
+        if t in PATHLIKE and attr == "startswith" and len(a) == 1 and isinstance(a[0], ast.Constant) and a[0].value == "/":
+            return E("true", "bool")  # names are absolute paths here
         if t == "stored" and attr == "to_path" and not a:
             GEN_NEEDS.add("StoredMetadata.to_path")
             return E("(StoredMetadata.to_path %s)" % paren(x.lean), "path")
@@ -2179,10 +2455,190 @@ class Fn4(Fn3):
         raise self.err("visititems", e)
 
 
+
+class Fn5(Fn4):
+    """the wrapper layer: `node.meta`, `self[name]`, `_wrap_method(..)(self, name)`, virtual calls on child nodes"""
+
+    def callee_call(self, b, qual, args, node, recv=None, drop=False):
+        """emit a call of the callee parameter `qual` with translated arguments"""
+        sp = SPECS[qual]
+        if qual not in self.sp.callees:
+            raise self.err("call of %s, which is not among the callees this function is known to have" % qual, node)
+        al = ([paren(recv)] if recv is not None else []) + [paren(a) for a in args]
+        rhs = " ".join([callee_param(qual)] + al)
+        ro = getattr(sp, "ro", False)
+        if sp.mutself and not sp.ctor:
+            b.emit("let _ ← %s" % rhs)  # the MetadorMeta object is a temporary: its new state is dropped
+            res = E("()", "unit")
+        elif sp.ctor:
+            res = E(b.bind(rhs), sp.selfty)
+        elif sp.ret == "unit":
+            b.emit(rhs)
+            res = E("()", "unit")
+        else:
+            res = E(b.bind(rhs), sp.ret)
+        if not ro:
+            b.snap = False
+            b.stale_aliases()
+        return res
+
+    def guard_path(self, b, p, node):
+        self.callee_call(b, "MetadorNode._guard_path", [p], node)
+
+    def ex_Constant(self, b, e, want):
+        if e.value == "/" and want in PATHLIKE:
+            return E("([] : Path)", "path")
+        return super().ex_Constant(b, e, want)
+
+    def ex_Dict(self, b, e, want):
+        if e.keys:
+            return E(None, "kwdict")  # keyword arguments of the raw copy (fixed options: not modelled)
+        return super().ex_Dict(b, e, want)
+
+    def ex_Attribute(self, b, e, want):
+        if e.attr in ("meta", "_base_dir", "__wrapped__", "acl"):
+            pl = self.place(b, e)
+            if pl is None or e.attr == "meta":
+                base_pl = self.place(b, e.value)
+                if e.attr == "acl" and base_pl and base_pl[0] in ("obj", "local"):
+                    return E(None, "aclflags")
+                x = self.ex(b, e.value)
+                if e.attr == "meta" and x.ty == "wnode":
+                    return self.callee_call(b, "MetadorMeta.__init__", [x.lean], e)
+                if e.attr == "_base_dir" and x.ty == "handle":
+                    return E("%s.baseDir" % paren(x.lean), "path")
+                if e.attr == "__wrapped__" and x.ty == "wnode":
+                    return E(x.lean, "node")
+        return super().ex_Attribute(b, e, want)
+
+    def ex_Subscript(self, b, e, want):
+        pl = self.place(b, e.value)
+        if pl and pl[0] == "obj" and pl[1] in ("MetadorGroup", "MetadorContainer"):
+            # self[name]: _wrap_method("__getitem__"): guard the path, raw lookup, wrap
+            if isinstance(e.slice, ast.Constant) and e.slice.value == "/":
+                return E("([] : Path)", "wnode")
+            p = self.coerce(b, self.ex(b, e.slice, want="path"), "path", e.slice)
+            self.guard_path(b, p.lean, e)
+            b.state()
+            return E(b.bind("rawGetItem s.raw %s" % paren(p.lean)), "wnode")
+        if isinstance(e.value, ast.Attribute) and e.value.attr == "acl":
+            x = self.ex(b, e.value)
+            if x.ty == "aclflags":
+                return E("false", "bool")  # unrestricted nodes (access flags: property C15)
+        return super().ex_Subscript(b, e, want)
+
+    def boolchain(self, b, vals, is_and):
+        if len(vals) > 1:
+            first = vals[0]
+            probe = b.sub(pure=True)
+            try:
+                x = self.truthy(self.ex(probe, first, want="bool"), first)
+                if not probe.lines and x.lean == ("false" if is_and else "true"):
+                    return x  # the other operands are never evaluated
+            except TranslateError:
+                pass
+        return super().boolchain(b, vals, is_and)
+
+    def ex_BoolOp(self, b, e, want):
+        # `node or default` with an Optional node
+        if isinstance(e.op, ast.Or) and len(e.values) == 2 and isinstance(e.values[0], ast.Name) and e.values[0].id in b.env:
+            v = b.env[e.values[0].id]
+            if isinstance(v.ty, tuple) and v.ty[0] == "opt" and always_truthy(v.ty[1]):
+                d = self.coerce(b, self.ex(b, e.values[1], want=v.ty[1]), v.ty[1], e.values[1])
+                return E("(%s).getD %s" % (v.lean, paren(d.lean)), v.ty[1])
+        return super().ex_BoolOp(b, e, want)
+
+    def member(self, b, l, c, node):
+        if c.ty == "handle":
+            k = self.coerce(b, self.ex(b, l, want="skey"), "skey", l)
+            r = self.callee_call(b, "MetadorMeta.__contains__", [k.lean], node, recv=c.lean)
+            return r.lean
+        return super().member(b, l, c, node)
+
+    def isinstance(self, b, e, x, t):
+        v = self.ex(b, x)
+        tn = t.id if isinstance(t, ast.Name) else None
+        if v.ty == "path" and tn == "str":
+            return E("true", "bool")
+        if v.ty == "wnode" and tn in ("H5GroupLike", "H5DatasetLike", "MetadorDataset", "MetadorGroup"):
+            b.state()
+            grp = tn in ("H5GroupLike", "MetadorGroup")
+            return E("(%s s.raw %s)" % ("isGroup" if grp else "isDataset", paren(v.lean)), "bool")
+        return super().isinstance(b, e, x, t)
+
+    def ex_Call(self, b, e, want):
+        f = e.func
+        # _wrap_method("m")(self, name, ...)
+        if isinstance(f, ast.Call) and isinstance(f.func, ast.Name) and f.func.id == "_wrap_method" and len(f.args) == 1 \
+                and isinstance(f.args[0], ast.Constant) and not f.keywords and len(e.args) >= 2 and not e.keywords \
+                and isinstance(e.args[0], ast.Name) and e.args[0].id == self.selfname:
+            m = f.args[0].value
+            p = self.coerce(b, self.ex(b, e.args[1], want="path"), "path", e.args[1])
+            self.guard_path(b, p.lean, e)
+            if m == "__delitem__" and len(e.args) == 2:
+                b.eff("rawDelItem %s" % paren(p.lean))
+                return E("()", "unit")
+            raise self.err("_wrap_method(%r) is not in the dictionary" % m, e)
+        # super().method(...)
+        if isinstance(f, ast.Attribute) and isinstance(f.value, ast.Call) and isinstance(f.value.func, ast.Name) \
+                and f.value.func.id == "super" and not f.value.args:
+            base = {"MetadorGroup": "MetadorNode"}.get(self.cls)
+            qual = "%s.%s" % (base, f.attr)
+            if base is None or qual not in SPECS:
+                raise self.err("super() call not understood", e)
+            args = self.args_of(e, qual, b)
+            return self.callee_call(b, qual, [a.lean for a in args], e, recv="self_")
+        # kwargs.pop("key", default)
+        if isinstance(f, ast.Attribute) and f.attr == "pop" and isinstance(f.value, ast.Name) and f.value.id == self.kwname \
+                and self.kwname and len(e.args) == 2 and isinstance(e.args[0], ast.Constant):
+            k = e.args[0].value
+            if k in self.kwspec:
+                v = b.env["kw:" + k]
+                return E(v.lean, v.ty)
+            return self.ex(b, e.args[1], want)  # a keyword the model's operation does not have: its default
+        return super().ex_Call(b, e, want)
+
+    def call_attr(self, b, e, f, want):
+        pl = self.place(b, f.value)
+        if pl and pl[0] == "local" and pl[2].ty in ("wnode", "handle"):
+            v = pl[2]
+            qual = ("wnode.%s" if v.ty == "wnode" else "MetadorMeta.%s") % f.attr
+            if v.ty == "wnode" and f.attr in ("values",) and not e.args:
+                b.state()
+                return E("(userChildren s.raw %s)" % paren(v.lean), ("list", "wnode"))
+            if qual in SPECS:
+                args = self.args_of(e, qual, b)
+                return self.callee_call(b, qual, [a.lean for a in args], e, recv=v.lean)
+        if pl and pl[0] == "obj" and pl[1] in ("MetadorGroup", "MetadorNode") and f.attr == "_guard_acl":
+            return E("()", "unit")  # access flags: property C15
+        # method of a temporary MetadorMeta: node.meta._destroy(...)
+        if isinstance(f.value, ast.Attribute) and f.value.attr == "meta":
+            h = self.ex(b, f.value)
+            if h.ty == "handle":
+                qual = "MetadorMeta.%s" % f.attr
+                if qual in SPECS:
+                    args = self.args_of(e, qual, b)
+                    return self.callee_call(b, qual, [a.lean for a in args], e, recv=h.lean)
+        return super().call_attr(b, e, f, want)
+
+    def raw_method(self, b, e, attr, want):
+        if attr == "copy" and len(e.args) == 2:
+            p = self.coerce(b, self.ex(b, e.args[0], want="path"), "path", e.args[0])
+            q = self.coerce(b, self.ex(b, e.args[1], want="path"), "path", e.args[1])
+            b.eff("rawCopyM %s %s" % (paren(p.lean), paren(q.lean)))
+            return E("()", "unit")
+        return super().raw_method(b, e, attr, want)
+
+    def visit_nodes(self, b, grp, st):
+        if grp.ty == "wnode":
+            b.state()
+            return "(userVisit s.raw %s)" % paren(grp.lean), "wnode"
+        return super().visit_nodes(b, grp, st)
+
 GEN_NEEDS = set()
 
 
-Translator = Fn4
+Translator = Fn5
 
 # order of the generated definitions (pure helpers first: they are called directly)
 ORDER = [
@@ -2196,6 +2652,8 @@ ORDER = [
     "MetadorMeta._require_schema", "MetadorMeta._get_raw", "MetadorMeta._set_raw", "MetadorMeta._del_raw",
     "MetadorMeta._destroy", "MetadorMeta.__init__", "MetadorMeta.query", "MetadorMeta.__contains__", "MetadorMeta.get",
     "MetadorMeta.__setitem__", "MetadorMeta.__delitem__",
+    "MetadorContainerTOC.query", "MetadorNode._guard_path", "MetadorNode._destroy_meta", "MetadorGroup._destroy_meta",
+    "MetadorGroup.__delitem__", "MetadorGroup.move", "MetadorGroup.copy",
 ]
 
 
@@ -2219,6 +2677,8 @@ def stub(qual, why):
     for i, t in enumerate(sp.params):
         if t is not None:
             ps.append("(x%d : %s)" % (i, lty(t)))
+    for k, t in (getattr(sp, "kwargs", None) or {}).items():
+        ps.append("(%s : %s)" % (lname(k), lty(t)))
     r = lty(sp.selfty) if sp.mutself else lty(sp.ret)
     why = why.replace("-/", "- /").replace("/-", "/ -")
     if sp.kind == "pure":
